@@ -7,6 +7,9 @@
 //! * `rsv`  : one producer-side thread issuing a random history of reserve / fill / publish-by-index / cancel-by-index /
 //!            plain send (only with no reservation outstanding), 1-2 concurrent consumers, finalizer as above   (C08)
 //!
+//! * `diff` : the same sequential history from several sequence origins must answer alike (C15); plus teardown with leftovers
+//!            (payloads with a counted destructor) from every origin, including the one at which `tail` wraps and `head` does not
+//!
 //! The trace goes to the Lean replay driver (step-level correspondence with models M1 / M2); the oracle below judges the
 //! implementation's observable results on their own.
 
@@ -57,6 +60,35 @@ fn make(kind: &str, n: usize) -> Arc<dyn RingApi> {
         ("fullsync", 2) => Arc::new(FullSyncMove::<u32, 2>::new()),
         ("fullsync", 4) => Arc::new(FullSyncMove::<u32, 4>::new()),
         ("fullsync", 8) => Arc::new(FullSyncMove::<u32, 8>::new()),
+        _ => panic!("unsupported kind/n"),
+    }
+}
+
+/// a payload whose destructor is counted (the ring's own default-initialised slots carry no counter)
+#[derive(Debug, Default)]
+struct Counted(Option<Arc<AtomicUsize>>);
+impl Drop for Counted { fn drop(&mut self) { if let Some(c) = &self.0 { c.fetch_add(1, SeqCst); } } }
+
+/// teardown with leftovers (C15 / C05): from sequence origin `origin`, `cycles` send+receive pairs, then `left` sends, then the
+/// ring is dropped.  Returns (accepted sends, destructor runs once the ring is gone) -- every accepted payload must have been
+/// destroyed exactly once by then, wherever the counters are
+fn teardown_counts(kind: &str, n: usize, origin: u32, cycles: usize, left: usize) -> (usize, usize) {
+    fn go<Q: MovePublisher<Counted> + MoveSubscriber<Counted>>(q: Q, rebase: impl Fn(&Q), cycles: usize, left: usize) -> (usize, usize) {
+        let drops = Arc::new(AtomicUsize::new(0));
+        rebase(&q);
+        let mut accepted = 0;
+        for _ in 0..cycles { if q.publish_movable(Counted(Some(drops.clone()))).0.is_some() { accepted += 1 } drop(q.consume_movable()); }
+        for _ in 0..left { if q.publish_movable(Counted(Some(drops.clone()))).0.is_some() { accepted += 1 } }
+        drop(q);
+        (accepted, drops.load(SeqCst))
+    }
+    match (kind, n) {
+        ("atomic", 2) => go(AtomicMove::<Counted, 2>::new(), |q| q.verif_rebase(origin), cycles, left),
+        ("atomic", 4) => go(AtomicMove::<Counted, 4>::new(), |q| q.verif_rebase(origin), cycles, left),
+        ("atomic", 8) => go(AtomicMove::<Counted, 8>::new(), |q| q.verif_rebase(origin), cycles, left),
+        ("fullsync", 2) => go(FullSyncMove::<Counted, 2>::new(), |q| q.verif_rebase(origin), cycles, left),
+        ("fullsync", 4) => go(FullSyncMove::<Counted, 4>::new(), |q| q.verif_rebase(origin), cycles, left),
+        ("fullsync", 8) => go(FullSyncMove::<Counted, 8>::new(), |q| q.verif_rebase(origin), cycles, left),
         _ => panic!("unsupported kind/n"),
     }
 }
@@ -381,6 +413,22 @@ fn main() {
                     all.push(format!("--- origin {o} ---")); all.extend(r.outcome.trace.clone());
                 }
                 for (k, d) in oracle(n, &r) { viol.push((k, format!("(origin {o}) {d}"))); }
+            }
+            // teardown with leftovers: a ring dropped while it buffers events destroys each of them exactly once, from any origin --
+            // in particular when `tail` has wrapped and `head` has not (origin 2^32 - N, more than N - cycles events buffered)
+            {
+                let mut trng = Rng::new(seed ^ 0x7EA2);
+                let cycles = trng.below(n as u64) as usize;
+                let left = 1 + trng.below(n as u64) as usize;
+                let base_td = teardown_counts(&kind, n, 0, cycles, left);
+                all.push(format!("teardown origin=0 cycles={cycles} leftovers={left} accepted={} destroyed={}", base_td.0, base_td.1));
+                if base_td.0 != base_td.1 { viol.push(("teardown_leftovers_not_destroyed".into(), format!("ring of {n} dropped with {left} buffered event(s) after {cycles} send+receive cycle(s): {} payloads were accepted, {} destructors had run once the ring was gone", base_td.0, base_td.1))); }
+                let wrap_origin = 0u32.wrapping_sub(n as u32);
+                for o in origins.iter().filter(|o| **o != 0).map(|o| o - (o % n as u32)).chain(std::iter::once(wrap_origin)) {
+                    let td = teardown_counts(&kind, n, o, cycles, left);
+                    all.push(format!("teardown origin={o} cycles={cycles} leftovers={left} accepted={} destroyed={}", td.0, td.1));
+                    if td != base_td { viol.push(("origin_dependent".into(), format!("teardown with leftovers answers differently from sequence origin {o} than from origin 0: ring of {n} dropped with {left} buffered event(s) after {cycles} cycle(s): accepted / destroyed = {} / {} vs {} / {}", td.0, td.1, base_td.0, base_td.1))); }
+                }
             }
             let nontrivial = b.iter().any(|l| l.contains("pubidx") || l.contains("canidx"));
             rep.add_run(&base.outcome.trace, nontrivial, &format!("{kind}/diff/N{n}"), "Completed");
